@@ -1,6 +1,7 @@
 """Filters for Python STIX2 DataSources, DataSinks, DataStores"""
 
 import collections
+import collections.abc
 from datetime import datetime
 
 import stix2.utils
@@ -158,6 +159,11 @@ def _check_filter(filter_, stix_obj):
         False if not.
 
     """
+    if not isinstance(stix_obj, collections.abc.Mapping):
+        # (a step of a dotted property path led to a value without
+        # properties: the path addresses nothing there)
+        return False
+
     # For properties like granular_markings and external_references
     # need to extract the first property from the string.
     prop = filter_.property.split('.')[0]
